@@ -1,0 +1,26 @@
+# -*- coding: utf-8 -*-
+
+"""
+Verification hooks, off by default.
+
+With the environment variable ``DISCOPY_VERIF`` unset (or not equal to "1")
+nothing here is ever called and the library behaves exactly as shipped.
+With ``DISCOPY_VERIF=1`` the constructors of :class:`discopy.cat.Arrow` and
+:class:`discopy.monoidal.Diagram` report every freshly built value to
+:func:`on_construct`, a slot that a test harness may replace.
+"""
+
+import os
+
+ENABLED = os.environ.get("DISCOPY_VERIF") == "1"
+
+
+class InvariantViolation(BaseException):
+    """ Raised by a monitor; deliberately not an Exception subclass. """
+
+
+def _no_op(_value):
+    return None
+
+
+on_construct = _no_op
